@@ -198,3 +198,122 @@ check(
     ),
     assumptions=["reference encodings are valid starting points", "hook caps only lower limits the library already enforces"],
 )
+
+check(
+    "C07", "a truncated block or message is never accepted", "fault_enumeration",
+    rule=("For every rapid-drawn block (1-3 catalog columns, library-encoded at a drawn revision) EVERY cut position 0..len-1 is "
+          "decoded through typed targets and, where inferable, through Results.Auto(); the same block wrapped by the reference "
+          "frame writer (None/LZ4/ZSTD, one frame or split over 2-3 frames) is cut at every position of the compressed stream; "
+          "every one of 12 protocol messages at a drawn revision is cut at every position. (Encodings above 2 KiB: first 300 "
+          "cuts, +-2 around every field boundary, 200 random.) evaluations counts cuts; distinct cases = hash of the encoding; "
+          "non-trivial = the encoding has at least one cut strictly inside a varint, string, fixed-width value, state prefix "
+          "or frame header (classified by the reference encoder's field map; per-role counters in classes)."),
+    quick=[unit("codec", "^TestC07BlockCuts", checks=500, timeout=900),
+           unit("codec", "^TestC07MessageCuts", checks=1200, timeout=900)],
+    thorough=[unit("codec", "^TestC07BlockCuts", checks=20000, timeout=8000, shards=12),
+              unit("codec", "^TestC07MessageCuts", checks=30000, timeout=8000, shards=4)],
+    manifest=dict(
+        text="Exhaustive cut enumeration over generated encodings: decoding any proper prefix must return a non-nil error "
+             "(no success, no panic), for plain and compressed streams, typed and inferred decoding, blocks and messages.",
+        design_ref="DESIGN.md 4 C07",
+        note="Messages are produced by the reference encoder (byte-identical to the library's by C17) because the library has "
+             "no encoder for some of them standing alone; blocks are produced by the library's encoder.",
+        technique="exhaustive crash-point (cut) enumeration over property-based generated encodings",
+    ),
+)
+
+check(
+    "C08", "decoding independent of transport segmentation", "exploration",
+    rule=("Reader level: rapid-drawn blocks (plain, or in 1-3 compressed frames), decoded from a chunking io.Reader under "
+          "the one-byte segmentation, the two-piece split at every offset (up to 400 offsets), 20 random segmentations, and "
+          "ALL 2^(n-1) compositions for streams of n <= 13 bytes; protocol messages of <= 15 bytes under all compositions. "
+          "A sentinel tail verifies the number of bytes consumed. evaluations counts segmentations; distinct = hash of the "
+          "stream; non-trivial = stream longer than one byte (every such stream gets splits inside varints, strings, "
+          "fixed-width values, frame headers and checksums, because every offset is a split point)."),
+    quick=[unit("codec", "^TestC08ReaderSegmentation", checks=300, timeout=900),
+           unit("codec", "^TestC08MessageSegmentation", checks=150, timeout=900)],
+    thorough=[unit("codec", "^TestC08ReaderSegmentation", checks=6000, timeout=8000, shards=12),
+              unit("codec", "^TestC08MessageSegmentation", checks=1500, timeout=8000, shards=4)],
+    manifest=dict(
+        text="Metamorphic relation: the decoded values, error and bytes consumed under any segmentation equal those of the "
+             "single-segment run; exhaustive over compositions for short streams, every two-piece split otherwise.",
+        design_ref="DESIGN.md 4 C08",
+        note="Client-level half (callback traces, read-deadline gaps between packets) is added by the client-package units "
+             "when present in this check's unit list.",
+        technique="metamorphic property testing over enumerated and random segmentations",
+    ),
+)
+
+check(
+    "C14", "vectored writer emits exactly what was chained", "exploration",
+    rule=("(a) ALL operation sequences of length <= 5 (thorough 6) over the 7-letter alphabet {append 3 bytes via ChainBuffer, "
+          "ChainBuffer appending nothing, ChainWrite of 5 bytes, ChainWrite of an empty slice, Flush to an accepting sink, "
+          "Flush to a sink failing after 4 bytes, Flush to a sink writing short with error} = 19 607 sequences, each run against a "
+          "byte-list model, chained slices overwritten after every flush; (b) rapid: sequences of up to 60 ops with sizes up "
+          "to 256 KiB (forcing reallocation across cut points); (c) rapid: WriteColumn+Flush vs EncodeColumn and WriteBlock vs "
+          "EncodeBlock for catalog columns with other content queued before and after; both builds. Distinct = hash of the "
+          "sequence / of the block. Non-trivial = a ChainWrite between buffer appends with >= 2 flushes, or a failing flush; "
+          "for (c): at least one row in a zero-copy column."),
+    quick=[unit("codec", "^TestC14", checks=4000, timeout=900),
+           unit("codec", "^TestC14", variant="purego", checks=2000, timeout=900)],
+    thorough=[unit("codec", "^TestC14", checks=50000, timeout=6000, shards=12),
+              unit("codec", "^TestC14", variant="purego", checks=50000, timeout=6000, shards=4)],
+    manifest=dict(
+        text="Model-based testing of the writer against a byte-list model: exhaustive over all short operation sequences, "
+             "random long ones, plus the metamorphic path equivalence vectored == buffered for columns and blocks.",
+        design_ref="DESIGN.md 4 C14",
+        note="The sink is a plain io.Writer (net.Buffers falls back to one Write per buffer); the writev path of *net.TCPConn "
+             "is not exercised.",
+        technique="model-based testing: exhaustive short histories + rapid long histories + path-equivalence property",
+    ),
+)
+
+check(
+    "C16", "reused columns carry nothing over", "exploration",
+    rule=("rapid state machine (T.Repeat) per column kind drawn from the catalog (one third of the runs steered to kinds with "
+          "Preparable columns): actions append, appendArr, reset, prepare, Prepare+EncodeColumn, WriteColumn+Flush, "
+          "EncodeRawBlock, Reset+DecodeColumn of reference-encoded random rows, failed DecodeColumn (truncated) then Reset; "
+          "model = list of values; after every step Rows()/Row(i) must equal it and after every encode step the reference "
+          "decoder applied to the produced bytes must equal it. Second machine for ColEnum re-inferred with other "
+          "definitions. Distinct = hash of (kind, history). Non-trivial = an encode after >= 2 Prepare calls with values "
+          "appended in between, or a decode into a previously used column; for enums a history that changed definition."),
+    quick=[unit("codec", "^TestC16", checks=4000, timeout=900),
+           unit("codec", "^TestC16", variant="purego", checks=1500, timeout=900)],
+    thorough=[unit("codec", "^TestC16", checks=40000, timeout=6000, shards=12),
+              unit("codec", "^TestC16", variant="purego", checks=40000, timeout=6000, shards=4)],
+    manifest=dict(
+        text="Model-based stateful testing: every history is judged after each step through the column's own accessors and, "
+             "at encode steps, through an independent decode of the bytes written (so a wrong LowCardinality key or enum "
+             "value is seen on the wire).",
+        design_ref="DESIGN.md 4 C16",
+        note="Histories are bounded by rapid's default step count (about 30). Infer with different parameters is exercised "
+             "for ColEnum; DateTime/DateTime64 re-inference changes no wire bytes and is covered by C18.",
+        technique="model-based stateful property testing (rapid T.Repeat) with reference decoder as wire oracle",
+    ),
+)
+
+check(
+    "C15", "purego and default builds behave identically", "translation_validation",
+    rule=("For each of the 33 dual-codec scalar kinds (32 generated + Bool + UUID; DateTime64 in time and raw views): the same "
+          "test compiled with and without -tags purego, driven by the same rapid seed, runs 7 operations per case (EncodeColumn "
+          "into an empty and a junk-prefixed buffer, WriteColumn+Flush, DecodeColumn of valid bytes into a fresh and a "
+          "used-then-reset column, DecodeColumn of arbitrary bytes of the right length, DecodeColumn of short input); element "
+          "values exhaustive for 8/16-bit types, boundary-biased random otherwise. Every case is checked against the reference "
+          "codec in-process and emits transcript lines (hash of output, rows, digest of values, error class) that the driver "
+          "diffs between the two builds. programs = number of dual codecs; evaluations = cases; every case is non-trivial "
+          "(contains an arbitrary-bytes decode and a non-empty-buffer encode)."),
+    quick=[unit("codec", "^TestC15", checks=6000, timeout=900, seed_key="c15", seed_idx=0),
+           unit("codec", "^TestC15", variant="purego", checks=6000, timeout=900, seed_key="c15", seed_idx=0)],
+    thorough=[unit("codec", "^TestC15", checks=80000, timeout=6000, shards=8, seed_key="c15", seed_idx=0),
+              unit("codec", "^TestC15", variant="purego", checks=80000, timeout=6000, shards=8, seed_key="c15", seed_idx=0)],
+    post="transcript_diff",
+    manifest=dict(
+        text="Differential (translation-validation style) testing of the two build variants: identical generated inputs, "
+             "transcripts diffed line by line, and each side additionally pinned to the reference codec so that 'both wrong' "
+             "fails too.",
+        design_ref="DESIGN.md 4 C15",
+        note="Decoding into a non-empty column without Reset is outside the statement and not generated. ColRawOf exists "
+             "only in the default build.",
+        technique="differential testing of two builds on identical rapid-generated inputs + reference codec",
+    ),
+)
